@@ -14,6 +14,7 @@ from ..callgraph import CallSite
 from ..cfg import cfg_of, CNode, CFG
 from ..fold import FuncVal, Inst, is_unknown
 from ..spec import tables as T
+from .common import inconclusive_on_error as _ioe
 from .common import (JWE_CONSUME, JWE_PRODUCE, JWS_CONSUME, JWS_PRODUCE, can_reach_exit, const_value, entries, is_const,
                      scope_of, succ_by_label)
 
@@ -115,6 +116,7 @@ def _calls_to(eng, fn: FunctionInfo, target: FunctionInfo) -> List[CallSite]:
     return [s for s in eng.cg.calls_in(fn) if isinstance(s.node, ast.Call) and target in s.callees]
 
 
+@_ioe
 def _fold_check_header(ctx, fn: FunctionInfo):
     """Fold a base check_header on probe registries / headers with the three shared checks intercepted and report what they were handed:
     a list of problems (empty: the registry handed to the unknown-parameter check is this instance's table plus the table of the model the
@@ -185,7 +187,7 @@ def _fold_check_header(ctx, fn: FunctionInfo):
     return problems
 
 
-def r15_2(ctx) -> None:
+def r15_2(ctx, family: Optional[str] = None) -> None:
     eng = ctx.eng
     P = eng.prog
     reg = P.mod("registry")
@@ -193,9 +195,12 @@ def r15_2(ctx) -> None:
     vrh = P.func("registry:validate_registry_header")
     csh = P.func("registry:check_supported_header")
     impls_ = _check_header_impls(eng)
+    if family is not None:
+        from .common import in_family
+        impls_ = [f for f in impls_ if in_family(f, family)]
     base_impls = [f for f in impls_ if not any(s.kind == "super" for s in eng.cg.calls_in(f))]
     overrides = [f for f in impls_ if f not in base_impls]
-    ctx.count("R15.2", len(base_impls), 2, "base check_header implementations")
+    ctx.count("R15.2", len(base_impls), 2 if family is None else 1, "base check_header implementations")
     for fn in base_impls:
         cfg = cfg_of(fn)
         hp = fn.pos_params[1]
@@ -673,6 +678,7 @@ def _falls_back(cfg: CFG, start: CNode, loops: List[CNode]) -> bool:
 
 
 # ----------------------------------------------------------------------------------------------- R15.5
+@_ioe
 def _fold_registry_merge(ctx, cls, default_table):
     """Fold the constructor on probes: the instance table is a fresh dict holding the defaults overlaid with the caller's entries; neither
     the default table nor the caller's dict is aliased or changed.  None when the constructor does not fold."""
